@@ -65,6 +65,9 @@ def run_native(module, fn, payload, timeout=600):
 
 def main(argv=None):
     sys.setrecursionlimit(50000)
+    import faulthandler
+    import signal
+    faulthandler.register(signal.SIGUSR1, all_threads=True)      # kill -USR1 <pid>: where is it?
     import threading
     threading.stack_size(512 * 1024 * 1024)
     ap = argparse.ArgumentParser()
